@@ -475,7 +475,13 @@ fn observe(lsp: &Lsp, proj: &Proj) -> Vec<(String, String)> {
         let uri = proj.uri(f);
         let eff = effective(lsp, proj, f);
         out.push((format!("eff:{}", f), eff.clone().unwrap_or("~".to_string())));
-        out.push((format!("tokens:{}", f), sem_tokens(lsp, &uri)));
+        // a semantic-token request for a file the server does not know panics inside the memoised
+        // function ("Expected source to exist"), which kills a real server; not asked here
+        if eff.is_some() {
+            out.push((format!("tokens:{}", f), sem_tokens(lsp, &uri)));
+        } else {
+            out.push((format!("tokens:{}", f), "skipped".to_string()));
+        }
         out.push((format!("format:{}", f), edits_string(&format_edits(lsp, &uri))));
         if let Some(text) = eff {
             // a few positions inside / around the first literal
